@@ -144,6 +144,23 @@ var c16 = newChk("C16", "relay-chain",
 				return obs.Failf("C16/decapsulate-index", fmt.Sprintf("element %d of the chain", i+1), "err=%v got %v", err, got)
 			}
 		}
+		// the payload of the innermost relay level is replaced after the lookups above: later lookups see the new message
+		levels[d-1].UpdateOption(dhcpv6.OptRelayMessage(reply))
+		if im2, err := chain.GetInnerMessage(); err != nil || sameTree(im2, reply) != "" {
+			return obs.Failf("C16/inner-message-after-replacement", "the replaced innermost message", "err=%v, still the old one=%v", err, im2 == im)
+		}
+		if xid, err := dhcpv6.GetTransactionID(chain); err != nil || xid != reply.TransactionID {
+			return obs.Failf("C16/transaction-id-after-replacement", fmt.Sprintf("%x", reply.TransactionID), "%x err=%v", xid, err)
+		}
+		if w, err := dhcpv6.FromBytes(chain.ToBytes()); err != nil {
+			return obs.Failf("C16/wire-decode", "modified chain decodes", "%v", err)
+		} else if wi, err := w.GetInnerMessage(); err != nil || sameTree(wi, reply) != "" {
+			return obs.Failf("C16/inner-message-after-replacement/wire", "the replaced innermost message after the wire", "err=%v", err)
+		}
+		levels[d-1].UpdateOption(dhcpv6.OptRelayMessage(im)) // put the original back
+		if im3, err := chain.GetInnerMessage(); err != nil || sameTree(im3, inner) != "" {
+			return obs.Failf("C16/inner-message-after-replacement", "the original innermost message again", "err=%v", err)
+		}
 		// relay-reply builder
 		rr, err := dhcpv6.NewRelayReplFromRelayForw(chain.(*dhcpv6.RelayMessage), reply)
 		if err != nil {
